@@ -343,5 +343,6 @@ def run(tier, seed, only=None, nproc=None):
         PROP, tier, seed, pairs, t0,
         assumptions=["trees are built through the real Tree._add_child (not through fit): every shape with the stated number of leaves",
                      "query point symbolic (3 features), thresholds concrete (0.0, negative, repeated values included)"],
-        bounds={"tier": tier, "max_leaves": 4 if tier == "quick" else 5, "features": 3, "trees": ntrees},
+        bounds={"tier": tier, "max_leaves": 4 if tier == "quick" else 5, "features": 3, "trees": ntrees,
+                "split orders": "every order with a parent split before its children", "thresholds": "0.0, negative, repeated, and doubles needing 17 significant digits"},
         extra_cov={"trees": ntrees})
